@@ -22,6 +22,9 @@ Record tctx := mkCtx { inside_loop : bool; inside_pure : bool }.
 Definition ctx_new := mkCtx false false.
 Definition enter_loop (c : tctx) := mkCtx true (inside_pure c).
 Definition enter_pure (c : tctx) := mkCtx (inside_loop c) true.
+(* entering the body of a function expression: `TypeCtx { inside_loop: false, ..ctx }`, then enter_pure for `pu` *)
+Definition enter_fn (pure : bool) (c : tctx) :=
+  let c := mkCtx false (inside_pure c) in if pure then enter_pure c else c.
 
 (* ------------------------------------------------------------------ graph level *)
 
@@ -675,7 +678,8 @@ Section WithVars.
          match op with
          | Neg =>
            '(a_ret, a) <- r_expr R a ctx ;;
-           add_constraint a CNeg ;;;             (* no check_constraints here (840) *)
+           add_constraint a CNeg ;;;
+           g_check G sp a ;;;                    (* since a470734 *)
            ret (a_ret, a)
          | Not =>
            '(a_ret, a) <- r_expr R a ctx ;;
@@ -687,16 +691,20 @@ Section WithVars.
          tys <- mapM (if_branch R sp ctx) branches ;;
          match last_branch branches with
          | None => panic PIfNoBranch
-         | Some (IfBranch (Some _) _ _) =>
-           (* no else branch: the value is void and the returns of the branches are dropped (873-881) *)
-           v <- push_type HVoid ;; ret (None, v)
-         | Some (IfBranch None _ _) =>
-           '(r, value) <- foldM (fun (acc : option tyid * option tyid) (b : option tyid * option tyid) =>
-                                   r' <- unify_option G sp (fst b) (fst acc) ;;
-                                   v' <- unify_option G sp (snd b) (snd acc) ;;
-                                   ret (r', v')) tys (None, None) ;;
-           v <- value_or_ret value r ;;
-           ret (r, v)
+         | Some (IfBranch lastc _ _) =>
+           (* the returns of all branches are unified, else-branch or not (since fe5f053) *)
+           r <- foldM (fun (acc : option tyid) (b : option tyid * option tyid) =>
+                         unify_option G sp (fst b) acc) tys None ;;
+           match lastc with
+           | Some _ =>
+             (* no else branch: the value is void *)
+             v <- push_type HVoid ;; ret (r, v)
+           | None =>
+             value <- foldM (fun (acc : option tyid) (b : option tyid * option tyid) =>
+                               unify_option G sp (snd b) acc) tys None ;;
+             v <- value_or_ret value r ;;
+             ret (r, v)
+           end
          end
        | ECase to_match branches fall sp =>
          '(ret0, m) <- r_expr R to_match ctx ;;
@@ -717,7 +725,7 @@ Section WithVars.
          ret (r, v)
        | EFunction _ params rty body pure sp =>
          '(f_ty, ret_ty) <- type_from_function R params rty pure ;;
-         let ctx := if pure then enter_pure ctx else ctx in      (* inside_loop is inherited (950) *)
+         let ctx := enter_fn pure ctx in       (* a loop around the definition is not a loop of the function (c3c408a) *)
          '(actual_ret, implicit_ret) <- expression_block R sp body ctx ;;
          actual_ret <- (if is_void_ty rty
                         then v <- push_type HVoid ;; unify_option G sp actual_ret (Some v)
